@@ -322,6 +322,10 @@ def GLine.isHeader : GLine → Bool
   | .header _ _ => true
   | _ => false
 
+def isBlankLine : GLine → Bool
+  | .blank _ => true
+  | _ => false
+
 def noneOf (p : Char → Bool) (s : Str) : Bool := s.all (fun c => !p c)
 def blankOnly (s : Str) : Bool := s.all (fun c => isWs c && c != '\t')
 
@@ -360,7 +364,7 @@ def GLine.ok (o : Opts) : GLine → Bool
 def fileOk (o : Opts) (hdr0 : List Str) (f : List GLine) : Bool :=
   f.all (GLine.ok o) &&
   (if hdr0.isEmpty then
-    (match f.dropWhile (fun l => match l with | .blank _ => true | _ => false) with
+    (match f.dropWhile isBlankLine with
      | .header _ _ :: rest => rest.all (fun l => !l.isHeader)
      | _ => false)
    else f.all (fun l => !l.isHeader))
